@@ -36,8 +36,9 @@ const (
 func main() {
 	vkit.Main("C20", "exploration", func(r *vkit.Report) {
 		r.SetRule("SleepContext: case = one call in one of nine scenario classes (plain; d <= 0; deadline <= d/8 with d >= 4 s; deadline >= 2000 d with d <= 5 ms; " +
-			"d = 1 h under a 2 h deadline cancelled after <= 20 ms; already cancelled with d >= 1 min; already cancelled with d <= 1 ms; cancelled mid-sleep with d >= 10 min; " +
-			"deadline already expired) x context shape (Background, WithCancel, WithTimeout, WithDeadline, child / WithValue wrappers); evaluation = one returned call judged; " +
+			"d = 1 h under a 2 h deadline (or d >= 1<<62 under the farthest deadline) cancelled after <= 20 ms; already ended with d >= 1 min; already cancelled with d <= 1 ms; ended mid-sleep with d >= 10 min; " +
+			"deadline already expired, from now-1ns back to time.Time{}, d from 1 ns to MaxInt64) x context shape (Background, WithCancel, WithTimeout, WithDeadline, WithCancelCause with nil / non-nil cause, WithTimeoutCause, WithDeadlineCause, " +
+			"children of those through WithCancel / WithValue, deadline-hiding wrapper); evaluation = one returned call judged; " +
 			"distinct = by (class, d, deadline, shape, cancel delay). " +
 			"JitterTicker: case = one ticker life (NewJitterTicker(d, jitter) from the grid d in {100us..5ms} x jitter in {0, 1ns, d/2, d-1ns}; 0-2 Resets to other grid points; " +
 			"one Stop; each action fired at a seeded offset around the expected firing time, or while the timer callback is held at the pause point ticker.fire), 64 lives at a time in the stress group; " +
@@ -46,7 +47,9 @@ func main() {
 		r.Assume("elapsed time is judged only as a lower bound (nil from SleepContext => elapsed >= d; tick timestamps >= d - jitter apart); no result is ever judged for arriving late")
 		r.Assume("scenario classes stay away from deadline ~ d: 'exactly when the deadline is closer than d' is decided only for deadline <= d/8 (must be DeadlineTooSoonError) and deadline >= 2000 d (must not be); in the latter class an error is judged only if the whole scenario, from before the context was made, took less than deadline - d")
 		r.Assume("an already-cancelled context with 0 < d <= 1 ms: nil after >= d is recorded, not judged (the timer may win the select when the goroutine is descheduled for >= d); with d >= 1 min the result must be ctx.Err()")
-		r.Assume("a context whose deadline has already expired satisfies both the DeadlineTooSoonError clause and the ctx.Err() clause: either result is accepted")
+		r.Assume("a context whose deadline has already expired: with d >= 1 h the result must be DeadlineTooSoonError (the deadline is closer than d by any reading, for every d up to MaxInt64 and every deadline back to time.Time{}); with d < 1 h ctx.Err() = context.DeadlineExceeded is accepted as well (both clauses of the statement apply)")
+		r.Assume("'the context's error' is ctx.Err() (context.Canceled / context.DeadlineExceeded), not context.Cause(ctx): contexts ended through WithCancelCause / WithTimeoutCause / WithDeadlineCause with an application cause (also one that wraps the sentinel) must not get the cause back")
+		r.Assume("a deadline-hiding context wrapper (Deadline() reports none, Done/Err/Value come from a WithTimeoutCause parent) is a legitimate context: it is the only way to let a sleep be ended by an expiry without generating deadline ~ d")
 		r.Assume("tick pairs that may straddle a Reset are held to the smaller of the d - jitter bounds of every regime that can have been in force between the two timestamps")
 		r.Assume("'no tick is sent after Stop returns' is refuted only by a tick whose own timestamp (taken inside the callback before the send) is later than a stamp taken after Stop returned; a tick that was already in the 1-slot channel is legitimate")
 		r.Assume("that ticks keep arriving at all (liveness) is not part of the statement: a phase that sees no tick for 5 s is counted, not judged")
@@ -55,12 +58,17 @@ func main() {
 		sleepCases(r)
 		gateCases(r)
 		stressCases(r)
+		tickerExtremes(r)
 		outside(r)
 
 		for cl := 0; cl < nClasses; cl++ {
 			r.Floor("SleepContext calls judged, class "+className[cl], r.Table("sleep class (judged)", className[cl]), 5)
 		}
 		r.Floor("SleepContext nil results with elapsed >= d judged", r.Table("sleep", "nil result, elapsed >= d checked"), 40)
+		r.Floor("SleepContext on contexts ended with an application cause different from ctx.Err()", r.Table("sleep", "contexts that ended with an application cause different from ctx.Err()"), 40)
+		r.Floor("SleepContext with an expired deadline and d >= 1h", r.Table("sleep", "expired deadline, d >= 1h: DeadlineTooSoonError demanded"), 48)
+		r.Floor("SleepContext with d >= 1<<62 ns", r.Table("sleep", "calls with d >= 1<<62 ns"), 60)
+		r.Floor("JitterTicker lives with d >= MaxInt64/4", r.Table("ticker", "lives with d >= MaxInt64/4"), 8)
 		r.Floor("NewJitterTicker / Reset with jitter == 0 (no panic)", r.Table("ticker", "New/Reset with jitter == 0"), 20)
 		r.Floor("consecutive tick pairs judged", r.Table("ticks", "pairs judged"), 2000)
 		r.Floor("tick pairs around a Reset judged", r.Table("ticks", "pairs judged with more than one regime possible"), 20)
@@ -95,7 +103,7 @@ var className = [nClasses]string{
 	"already cancelled, d >= 1min",
 	"already cancelled, 0 < d <= 1ms (lenient)",
 	"cancelled mid-sleep, d >= 10min",
-	"deadline already expired (lenient)",
+	"deadline already expired (d >= 1h: DeadlineTooSoonError demanded)",
 }
 
 // A class whose expectation has been refuted once is not exercised again in this run (a wrong
@@ -151,53 +159,176 @@ func errString(err error) string {
 	return fmt.Sprintf("%T(%v)", err, err)
 }
 
-// deadlineCtx makes a context whose deadline is D from now, in one of several shapes.
-func deadlineCtx(shape int, D time.Duration) (context.Context, func(), string) {
-	switch shape % 4 {
+// Application errors used as cancellation causes. Two of them wrap the sentinel the context reports
+// itself, so only "is not the cause" tells ctx.Err() and context.Cause(ctx) apart there.
+var (
+	errCause     = errors.New("verif: application cause")
+	errCauseWrap = fmt.Errorf("verif: application cause wrapping: %w", context.Canceled)
+	errCauseDL   = fmt.Errorf("verif: deadline cause wrapping: %w", context.DeadlineExceeded)
+	allCauses    = []error{errCause, errCauseWrap, errCauseDL}
+)
+
+// mctx is a context made for one scenario.
+type mctx struct {
+	ctx  context.Context
+	end  func() // ends the context the way the shape means it (with its cause, if it has one)
+	free func() // releases everything
+	name string
+}
+
+type valKey struct{}
+
+// hideDeadline is a context that ends like its parent but does not announce a deadline.
+type hideDeadline struct{ context.Context }
+
+func (hideDeadline) Deadline() (time.Time, bool) { return time.Time{}, false }
+
+// deadlineCtxAt makes a context with the absolute deadline dl, in one of several shapes.
+func deadlineCtxAt(shape int, dl time.Time) mctx {
+	switch shape % 6 {
 	case 0:
-		ctx, cancel := context.WithTimeout(context.Background(), D)
-		return ctx, cancel, "WithTimeout"
+		ctx, cancel := context.WithDeadline(context.Background(), dl)
+		return mctx{ctx, cancel, cancel, "WithDeadline"}
 	case 1:
-		ctx, cancel := context.WithDeadline(context.Background(), time.Now().Add(D))
-		return ctx, cancel, "WithDeadline"
-	case 2:
-		p, pc := context.WithTimeout(context.Background(), D)
+		p, pc := context.WithDeadline(context.Background(), dl)
 		ctx, cancel := context.WithCancel(p)
-		return ctx, func() { cancel(); pc() }, "WithCancel(WithTimeout)"
+		return mctx{ctx, cancel, func() { cancel(); pc() }, "WithCancel(WithDeadline)"}
+	case 2:
+		p, pc := context.WithDeadline(context.Background(), dl)
+		return mctx{context.WithValue(p, valKey{}, 1), pc, pc, "WithValue(WithDeadline)"}
+	case 3:
+		ctx, cancel := context.WithDeadlineCause(context.Background(), dl, errCauseDL)
+		return mctx{ctx, cancel, cancel, "WithDeadlineCause(cause)"}
+	case 4:
+		p, pc := context.WithCancelCause(context.Background())
+		ctx, cancel := context.WithDeadlineCause(p, dl, errCauseDL)
+		return mctx{ctx, func() { pc(errCause) }, func() { cancel(); pc(nil) }, "WithDeadlineCause(WithCancelCause parent, cancelled with a cause)"}
 	default:
-		p, pc := context.WithDeadline(context.Background(), time.Now().Add(D))
-		type k struct{}
-		return context.WithValue(p, k{}, 1), pc, "WithValue(WithDeadline)"
+		p, pc := context.WithCancelCause(context.Background())
+		q, qc := context.WithDeadlineCause(p, dl, errCauseDL)
+		ctx, cancel := context.WithCancel(context.WithValue(q, valKey{}, 1))
+		return mctx{ctx, func() { pc(errCauseWrap) }, func() { cancel(); qc(); pc(nil) }, "WithCancel(WithValue(WithDeadlineCause(WithCancelCause parent, cancelled with a cause)))"}
 	}
 }
 
-func cancelCtx(shape int) (context.Context, context.CancelFunc, string) {
-	switch shape % 3 {
+// deadlineCtx makes a context whose deadline is D from now.
+func deadlineCtx(shape int, D time.Duration) mctx {
+	switch shape % 8 {
+	case 6:
+		ctx, cancel := context.WithTimeout(context.Background(), D)
+		return mctx{ctx, cancel, cancel, "WithTimeout"}
+	case 7:
+		ctx, cancel := context.WithTimeoutCause(context.Background(), D, errCauseDL)
+		return mctx{ctx, cancel, cancel, "WithTimeoutCause(cause)"}
+	}
+	return deadlineCtxAt(shape%8, time.Now().Add(D))
+}
+
+// hiddenDeadlineCtx ends by itself D from now with context.DeadlineExceeded (and an application
+// cause), but reports no deadline: the only way the ctx.Done() branch is reached through an expiry
+// without coming near deadline ~ d.
+func hiddenDeadlineCtx(shape int, D time.Duration) mctx {
+	if shape%2 == 0 {
+		p, cancel := context.WithTimeoutCause(context.Background(), D, errCauseDL)
+		return mctx{hideDeadline{p}, func() {}, cancel, "deadline-hiding wrapper(WithTimeoutCause(cause))"}
+	}
+	p, cancel := context.WithDeadlineCause(context.Background(), time.Now().Add(D), errCause)
+	return mctx{hideDeadline{context.WithValue(p, valKey{}, 1)}, func() {}, cancel, "deadline-hiding wrapper(WithValue(WithDeadlineCause(cause)))"}
+}
+
+// cancelCtx makes a context without a deadline; end() cancels it.
+func cancelCtx(shape int) mctx {
+	switch shape % 8 {
 	case 0:
 		ctx, cancel := context.WithCancel(context.Background())
-		return ctx, cancel, "WithCancel"
+		return mctx{ctx, cancel, cancel, "WithCancel"}
 	case 1:
-		type k struct{}
-		ctx, cancel := context.WithCancel(context.WithValue(context.Background(), k{}, 1))
-		return ctx, cancel, "WithCancel(WithValue)"
-	default:
+		ctx, cancel := context.WithCancel(context.WithValue(context.Background(), valKey{}, 1))
+		return mctx{ctx, cancel, cancel, "WithCancel(WithValue)"}
+	case 2:
 		p, cancel := context.WithCancel(context.Background())
 		ctx, c2 := context.WithCancel(p)
-		return ctx, func() { cancel(); c2() }, "WithCancel(parent cancelled)"
+		return mctx{ctx, cancel, func() { cancel(); c2() }, "WithCancel(parent cancelled)"}
+	case 3:
+		ctx, cancel := context.WithCancelCause(context.Background())
+		return mctx{ctx, func() { cancel(nil) }, func() { cancel(nil) }, "WithCancelCause(nil cause)"}
+	case 4:
+		ctx, cancel := context.WithCancelCause(context.Background())
+		return mctx{ctx, func() { cancel(errCause) }, func() { cancel(nil) }, "WithCancelCause(cause)"}
+	case 5:
+		p, cancel := context.WithCancelCause(context.Background())
+		return mctx{context.WithValue(p, valKey{}, 1), func() { cancel(errCauseWrap) }, func() { cancel(nil) }, "WithValue(WithCancelCause(cause wrapping Canceled))"}
+	case 6:
+		p, pc := context.WithCancelCause(context.Background())
+		ctx, cancel := context.WithCancel(p)
+		return mctx{ctx, func() { pc(errCause) }, func() { cancel(); pc(nil) }, "WithCancel(WithCancelCause parent cancelled with a cause)"}
+	default:
+		p, pc := context.WithCancelCause(context.Background())
+		ctx, cancel := context.WithCancelCause(context.WithValue(p, valKey{}, 1))
+		return mctx{ctx, func() { pc(errCauseWrap) }, func() { cancel(nil); pc(nil) }, "WithCancelCause(WithValue(WithCancelCause parent cancelled with a cause))"}
 	}
 }
 
+// isCause reports whether err is (or wraps) one of the application causes: "the context's error"
+// is ctx.Err(), never context.Cause(ctx).
+func isCause(err error) bool {
+	for _, c := range allCauses {
+		if errors.Is(err, c) {
+			return true
+		}
+	}
+	return false
+}
+
+const maxD = time.Duration(math.MaxInt64)
+
+var hugeD = []time.Duration{1 << 62, maxD - 1, maxD}
+
+// Deadlines that have already expired, from the barely expired to the unrepresentably old.
+var expiredKinds = []string{"time.Time{}", "time.Unix(0,0)", "time.Unix(-1<<40,0)", "now-1h", "now-1ms", "now-1ns"}
+
+func expiredDeadline(kind int) time.Time {
+	switch kind % len(expiredKinds) {
+	case 0:
+		return time.Time{}
+	case 1:
+		return time.Unix(0, 0)
+	case 2:
+		return time.Unix(-1<<40, 0)
+	case 3:
+		return time.Now().Add(-time.Hour)
+	case 4:
+		return time.Now().Add(-1 * ms)
+	}
+	return time.Now().Add(-1)
+}
+
+var expiredDs = []time.Duration{1, 1 * ms, 4 * time.Second, time.Hour, 1 << 62, maxD - 1, maxD}
+
 func sleepCases(r *vkit.Report) {
-	n := r.Scale(600, 8000)
+	n := r.Scale(700, 8000)
 	r.Cases("sleep", n, 1, func(c *vkit.Case) {
-		class := c.Rand.Weighted([]int{5, 3, 3, 5, 2, 2, 2, 3, 1})
+		class := c.Rand.Weighted([]int{5, 3, 3, 5, 3, 3, 2, 4, 3})
 		sleepCase(c, class, nil)
+	})
+	// Every expired deadline kind x every d (incl. 1 ns and MaxInt64) x plain / cause shape, and the
+	// huge d values against near deadlines.
+	ne := len(expiredKinds) * len(expiredDs) * 2
+	r.Cases("extreme", ne+len(hugeD)*3, 1, func(c *vkit.Case) {
+		i := c.Index
+		if i < ne {
+			sleepCase(c, clExpired, &sleepFix{d: expiredDs[i%len(expiredDs)], kind: i / len(expiredDs) % len(expiredKinds), shape: 3 * (i / (len(expiredDs) * len(expiredKinds)))})
+			return
+		}
+		i -= ne
+		sleepCase(c, clNear, &sleepFix{d: hugeD[i%len(hugeD)], D: []time.Duration{1 * ms, 20 * ms, 500 * ms}[i/len(hugeD)], shape: i})
 	})
 }
 
 type sleepFix struct {
 	d, D  time.Duration
 	shape int
+	kind  int // expired deadline kind (clExpired)
 }
 
 func sleepCase(c *vkit.Case, class int, fix *sleepFix) {
@@ -208,46 +339,54 @@ func sleepCase(c *vkit.Case, class int, fix *sleepFix) {
 		return
 	}
 	var (
-		d, D      time.Duration // D: deadline distance (0 = none)
-		ctx       context.Context
-		cancel    func()
-		shape     string
+		d, D      time.Duration // D: deadline distance (0 = none / see dlDesc)
+		m         mctx
+		dlDesc    string
 		mid       func()
 		midDelay  time.Duration
-		t0        = time.Now() // before the context exists
-		shapeSeed = rnd.Intn(12)
+		want      = context.Canceled // the context's error in the classes whose context ends
+		t0        = time.Now()       // before the context exists
+		variant   = rnd.Intn(60)
+		shapeSeed = rnd.Intn(48)
 	)
+	cancelAfter := func(delays []time.Duration) {
+		midDelay = vkit.Pick(rnd, delays)
+		end := m.end
+		mid = func() {
+			if midDelay > 0 {
+				time.Sleep(midDelay)
+			}
+			end()
+		}
+	}
 	switch class {
 	case clPlain:
 		d = vkit.Pick(rnd, []time.Duration{50 * us, 300 * us, 1 * ms, 2 * ms, 3 * ms, 5 * ms})
-		if shapeSeed%2 == 0 {
-			ctx, cancel, shape = context.Background(), func() {}, "Background"
+		if variant%2 == 0 {
+			m = mctx{context.Background(), func() {}, func() {}, "Background"}
 		} else {
-			ctx, cancel, shape = cancelCtx(shapeSeed)
+			m = cancelCtx(shapeSeed)
 		}
 	case clNonPos:
 		d = vkit.Pick(rnd, []time.Duration{0, -1, -1 * ms, -time.Hour, math.MinInt64})
-		switch shapeSeed % 3 {
+		switch variant % 3 {
 		case 0:
-			ctx, cancel, shape = context.Background(), func() {}, "Background"
+			m = mctx{context.Background(), func() {}, func() {}, "Background"}
 		case 1:
-			var cf context.CancelFunc
-			ctx, cf, shape = cancelCtx(shapeSeed)
-			cf()
-			cancel = func() {}
-			shape += " cancelled"
+			m = cancelCtx(shapeSeed)
+			m.end()
+			m.name += ", cancelled"
 		default:
 			D = time.Hour
-			ctx, cancel, shape = deadlineCtx(shapeSeed, D)
+			m = deadlineCtx(shapeSeed, D)
 		}
 	case clNear:
-		d = vkit.Pick(rnd, []time.Duration{4 * time.Second, 7 * time.Second, time.Minute, time.Hour, 1000 * time.Hour})
+		d = vkit.Pick(rnd, []time.Duration{4 * time.Second, 7 * time.Second, time.Minute, time.Hour, 1000 * time.Hour, 1 << 62, maxD - 1, maxD})
 		D = vkit.Pick(rnd, []time.Duration{1 * ms, 5 * ms, 20 * ms, 100 * ms, 500 * ms})
 		if fix != nil {
 			d, D, shapeSeed = fix.d, fix.D, fix.shape
 		}
-		t0 = time.Now()
-		ctx, cancel, shape = deadlineCtx(shapeSeed, D)
+		m = deadlineCtx(shapeSeed, D)
 	case clFar:
 		d = vkit.Pick(rnd, []time.Duration{1 * ms, 2 * ms, 3 * ms, 5 * ms})
 		D = vkit.Pick(rnd, []time.Duration{10 * time.Second, time.Minute, time.Hour, 2 * time.Hour})
@@ -255,51 +394,58 @@ func sleepCase(c *vkit.Case, class int, fix *sleepFix) {
 			d, D, shapeSeed = fix.d, fix.D, fix.shape
 		}
 		t0 = time.Now()
-		ctx, cancel, shape = deadlineCtx(shapeSeed, D)
+		m = deadlineCtx(shapeSeed, D)
 	case clFarCancel:
-		d = time.Hour
-		D = vkit.Pick(rnd, []time.Duration{2 * time.Hour, 100 * time.Hour})
-		ctx, cancel, shape = deadlineCtx(shapeSeed, D)
-		midDelay = vkit.Pick(rnd, []time.Duration{0, 100 * us, 1 * ms, 5 * ms, 20 * ms})
-		cf := cancel
-		mid = func() {
-			if midDelay > 0 {
-				time.Sleep(midDelay)
-			}
-			cf()
+		if variant%3 == 0 {
+			// as far as a deadline can be (time.Until saturates), against the longest sleeps there are
+			d = vkit.Pick(rnd, hugeD)
+			m = deadlineCtxAt(shapeSeed, time.Unix(1<<62, 0))
+			dlDesc = "time.Unix(1<<62,0)"
+		} else {
+			d = time.Hour
+			D = vkit.Pick(rnd, []time.Duration{2 * time.Hour, 100 * time.Hour})
+			m = deadlineCtx(shapeSeed, D)
 		}
+		cancelAfter([]time.Duration{0, 100 * us, 1 * ms, 5 * ms, 20 * ms})
 	case clCancelledBig:
-		d = vkit.Pick(rnd, []time.Duration{time.Minute, 10 * time.Minute, time.Hour})
-		var cf context.CancelFunc
-		ctx, cf, shape = cancelCtx(shapeSeed)
-		cf()
-		cancel = func() {}
-		shape += " cancelled"
+		d = vkit.Pick(rnd, []time.Duration{time.Minute, 10 * time.Minute, time.Hour, 1 << 62, maxD - 1, maxD})
+		if variant%5 == 0 {
+			m = hiddenDeadlineCtx(shapeSeed, -1*ms)
+			m.name += ", expired"
+			want = context.DeadlineExceeded
+		} else {
+			m = cancelCtx(shapeSeed)
+			m.end()
+			m.name += ", cancelled"
+		}
 	case clCancelledSmall:
 		d = vkit.Pick(rnd, []time.Duration{1, 1 * us, 100 * us, 1 * ms})
-		var cf context.CancelFunc
-		ctx, cf, shape = cancelCtx(shapeSeed)
-		cf()
-		cancel = func() {}
-		shape += " cancelled"
+		m = cancelCtx(shapeSeed)
+		m.end()
+		m.name += ", cancelled"
 	case clMidCancel:
-		d = vkit.Pick(rnd, []time.Duration{10 * time.Minute, time.Hour})
-		var cf context.CancelFunc
-		ctx, cf, shape = cancelCtx(shapeSeed)
-		cancel = cf
-		midDelay = vkit.Pick(rnd, []time.Duration{0, 50 * us, 1 * ms, 5 * ms, 20 * ms})
-		mid = func() {
-			if midDelay > 0 {
-				time.Sleep(midDelay)
-			}
-			cf()
+		d = vkit.Pick(rnd, []time.Duration{10 * time.Minute, time.Hour, 1 << 62, maxD - 1, maxD})
+		if variant%4 == 0 {
+			midDelay = vkit.Pick(rnd, []time.Duration{50 * us, 1 * ms, 5 * ms, 20 * ms})
+			m = hiddenDeadlineCtx(shapeSeed, midDelay)
+			m.name += fmt.Sprintf(", expiring after %s", midDelay)
+			want = context.DeadlineExceeded
+		} else {
+			m = cancelCtx(shapeSeed)
+			cancelAfter([]time.Duration{0, 50 * us, 1 * ms, 5 * ms, 20 * ms})
 		}
 	case clExpired:
-		d = vkit.Pick(rnd, []time.Duration{1 * ms, 4 * time.Second, time.Hour})
-		D = -vkit.Pick(rnd, []time.Duration{1, 1 * ms, time.Hour})
-		ctx, cancel, shape = deadlineCtx(shapeSeed|1, D) // WithDeadline shapes
+		d = vkit.Pick(rnd, expiredDs)
+		kind := rnd.Intn(len(expiredKinds))
+		if fix != nil {
+			d, kind, shapeSeed = fix.d, fix.kind, fix.shape
+		}
+		m = deadlineCtxAt(shapeSeed, expiredDeadline(kind))
+		dlDesc = expiredKinds[kind%len(expiredKinds)]
+		want = context.DeadlineExceeded
 	}
-	defer cancel()
+	defer m.free()
+	ctx, shape := m.ctx, m.name
 
 	out := doSleep(ctx, d, mid)
 	total := time.Since(t0)
@@ -307,15 +453,17 @@ func sleepCase(c *vkit.Case, class int, fix *sleepFix) {
 	witness := map[string]any{
 		"class": className[class], "d": d.String(), "d_ns": int64(d), "context": shape,
 	}
-	if D != 0 {
+	desc := fmt.Sprintf("SleepContext(%s, %s)", shape, d)
+	switch {
+	case dlDesc != "":
+		witness["deadline"] = dlDesc
+		desc = fmt.Sprintf("SleepContext(%s deadline %s, %s)", shape, dlDesc, d)
+	case D != 0:
 		witness["deadline_from_now"] = D.String()
+		desc = fmt.Sprintf("SleepContext(%s deadline now%+v, %s)", shape, D, d)
 	}
 	if mid != nil {
 		witness["cancelled_after"] = midDelay.String()
-	}
-	desc := fmt.Sprintf("SleepContext(%s, %s)", shape, d)
-	if D != 0 {
-		desc = fmt.Sprintf("SleepContext(%s deadline now%+v, %s)", shape, D, d)
 	}
 	bad := func(sig, what string) {
 		classRefuted[class].Store(true)
@@ -342,10 +490,19 @@ func sleepCase(c *vkit.Case, class int, fix *sleepFix) {
 	}
 	witness["result"] = errString(out.err)
 	witness["elapsed"] = out.elapsed.String()
+	if ce := context.Cause(ctx); ce != nil && ce != ctx.Err() {
+		witness["context_cause"] = errString(ce)
+		witness["context_err"] = errString(ctx.Err())
+		r.Count("sleep", "contexts that ended with an application cause different from ctx.Err()", 1)
+	}
 	r.Eval(1)
 	r.Count("sleep class (judged)", className[class], 1)
 	r.Count("sleep result", errKind(out.err), 1)
-	r.Distinct(fmt.Sprintf("sleep|%d|%d|%d|%s|%d", class, d, D, shape, midDelay))
+	r.Count("sleep context shape", shape, 1)
+	if d >= 1<<62 {
+		r.Count("sleep", "calls with d >= 1<<62 ns", 1)
+	}
+	r.Distinct(fmt.Sprintf("sleep|%d|%d|%d|%s|%s|%d", class, d, D, dlDesc, shape, midDelay))
 
 	if out.pan != nil {
 		witness["panic"] = out.pan.Msg
@@ -359,6 +516,21 @@ func sleepCase(c *vkit.Case, class int, fix *sleepFix) {
 			bad("nil-before-d", fmt.Sprintf("%s returned nil after %s, less than d", desc, out.elapsed))
 			return
 		}
+	}
+	// "the context's error" is ctx.Err(): the sentinel, not the application cause.
+	isWant := func(err error) bool { return errors.Is(err, want) && !isCause(err) }
+	wantName := "context.Canceled"
+	if want == context.DeadlineExceeded {
+		wantName = "context.DeadlineExceeded"
+	}
+	ctxErrSig := func(err error) (string, string) {
+		switch {
+		case isTooSoon(err):
+			return "deadline-too-soon-spurious", ""
+		case err != nil && isCause(err):
+			return "cause-instead-of-ctx-err", " (that is context.Cause(ctx), not ctx.Err())"
+		}
+		return "ctx-error-missing", ""
 	}
 	switch class {
 	case clPlain, clNonPos:
@@ -382,24 +554,37 @@ func sleepCase(c *vkit.Case, class int, fix *sleepFix) {
 			}
 		}
 	case clFarCancel, clCancelledBig, clMidCancel:
-		if !errors.Is(out.err, context.Canceled) {
-			sig := "ctx-error-missing"
-			if isTooSoon(out.err) {
-				sig = "deadline-too-soon-spurious"
-			}
-			bad(sig, fmt.Sprintf("%s returned %s after %s; the context was cancelled long before d, expected context.Canceled", desc, errString(out.err), out.elapsed))
+		if !isWant(out.err) {
+			sig, note := ctxErrSig(out.err)
+			bad(sig, fmt.Sprintf("%s returned %s%s after %s; the context ended long before d, expected ctx.Err() = %s", desc, errString(out.err), note, out.elapsed, wantName))
 		}
 	case clCancelledSmall:
 		switch {
-		case errors.Is(out.err, context.Canceled):
+		case isWant(out.err):
 		case out.err == nil:
 			r.Count("outside the statement / lenient (not judged)", "already-cancelled ctx, 0 < d <= 1ms: nil after >= d (timer won the select)", 1)
 		default:
-			bad("ctx-error-missing", fmt.Sprintf("%s returned %s; expected context.Canceled", desc, errString(out.err)))
+			sig, note := ctxErrSig(out.err)
+			bad(sig, fmt.Sprintf("%s returned %s%s; expected ctx.Err() = context.Canceled", desc, errString(out.err), note))
 		}
 	case clExpired:
-		if !isTooSoon(out.err) && !errors.Is(out.err, context.DeadlineExceeded) {
-			bad("expired-deadline-result", fmt.Sprintf("%s returned %s; the deadline had already expired, expected DeadlineTooSoonError or context.DeadlineExceeded", desc, errString(out.err)))
+		switch {
+		case isTooSoon(out.err):
+		case d >= time.Hour:
+			// The deadline is in the past and d is at least an hour: it is closer than d by any
+			// reading, so the statement leaves no choice.
+			bad("deadline-too-soon-missing", fmt.Sprintf("%s returned %s; the deadline had already expired and d >= 1h, expected DeadlineTooSoonError", desc, errString(out.err)))
+		case isWant(out.err):
+			r.Count("outside the statement / lenient (not judged)", "expired deadline, d < 1h: context.DeadlineExceeded instead of DeadlineTooSoonError", 1)
+		default:
+			sig, note := ctxErrSig(out.err)
+			if sig == "ctx-error-missing" {
+				sig = "expired-deadline-result"
+			}
+			bad(sig, fmt.Sprintf("%s returned %s%s; the deadline had already expired, expected DeadlineTooSoonError (or ctx.Err() = context.DeadlineExceeded)", desc, errString(out.err), note))
+		}
+		if d >= time.Hour {
+			r.Count("sleep", "expired deadline, d >= 1h: DeadlineTooSoonError demanded", 1)
 		}
 	}
 	if r.WantSample() && c.Index%37 == 3 {
@@ -411,6 +596,8 @@ func errKind(err error) string {
 	switch {
 	case err == nil:
 		return "nil"
+	case isCause(err):
+		return "application cause (context.Cause)"
 	case isTooSoon(err):
 		return "DeadlineTooSoonError"
 	case errors.Is(err, context.Canceled):
